@@ -46,6 +46,17 @@ func emitOptionsProbes(tw *traceWriter, tid int, t tableCase, routers []string, 
 			continue
 		}
 		filtered.Filter(filtered.OPTIONSFilter)
+		// ... and a third with a CORS filter (every origin allowed, methods not configured) in front of the OPTIONS filter:
+		// an OPTIONS request that is no preflight is passed on by the CORS filter and answered by the OPTIONS filter
+		dynamicTables = true
+		corsed, ap3 := buildContainer(t, router, registrationOrder(t, nil, true), &cell)
+		dynamicTables = false
+		if ap3 != "" {
+			continue
+		}
+		cors := restful.CrossOriginResourceSharing{Container: corsed, CookiesAllowed: true}
+		corsed.Filter(cors.Filter)
+		corsed.Filter(corsed.OPTIONSFilter)
 		for pass := 0; pass < 2; pass++ {
 			if pass == 1 {
 				// a route is added to an already registered WebService: the first route's path also serves BREW
@@ -53,7 +64,7 @@ func emitOptionsProbes(tw *traceWriter, tid int, t tableCase, routers []string, 
 					break
 				}
 				p0 := t.Services[0].Routes[0].P
-				for _, cont := range []*restful.Container{plain, filtered} {
+				for _, cont := range []*restful.Container{plain, filtered, corsed} {
 					for _, ws := range cont.RegisteredWebServices() {
 						if ws.RootPath() == t.Services[0].Root || (t.Services[0].Root == "" && ws.RootPath() == "/") {
 							ws.Route(ws.Method("BREW").Path(p0).To(func(req *restful.Request, resp *restful.Response) {
@@ -103,6 +114,13 @@ func emitOptionsProbes(tw *traceWriter, tid int, t tableCase, routers []string, 
 							cell = &obsCell{}
 							rec3 := newRecorderObserve(filtered, hr3, &cell)
 							opt["allowAcc"] = splitList(rec3.hdr.Get("Allow"))
+						}
+						opt["acamCors"] = opt["acam"]
+						rq4 := reqSpec{M: m, Path: path, Hdr: map[string]string{"Origin": "http://o.test"}}
+						if hr4, err := rq4.httpRequest(false); err == nil {
+							cell = &obsCell{}
+							rec4 := newRecorderObserve(corsed, hr4, &cell)
+							opt["acamCors"] = splitList(rec4.hdr.Get("Access-Control-Allow-Methods"))
 						}
 					} else {
 						fprobes = append(fprobes, []interface{}{m, rec.codeOrRoute(), rec.ran})
